@@ -233,6 +233,10 @@ DecodeOnly ==
    {Upd(<<>>, Base(FALSE) \o <<At(17, <<Seg(2, <<<<1, 4464>>, <<0, 7>>>>)>>)>>, N1),
     Upd(<<>>, Base(FALSE) \o <<At(7, [as |-> <<0, 23456>>, ip |-> <<1, 2, 3, 4>>]), At(18, [as |-> <<1, 4464>>, ip |-> <<1, 2, 3, 4>>])>>, N1),
     Upd(<<>>, <<At(1, 0), At(200, <<1, 2, 3>>), At(2, <<Seg(2, <<<<0, 65001>>>>)>>), At(201, <<>>), At(3, <<10, 0, 0, 1>>)>>, N1)}
+\* every rotation of an attribute list and its reverse: every pair of attributes occurs in both orders
+RECURSIVE RotN(_, _)
+RotN(s, k) == IF k = 0 THEN s ELSE RotN(Rotate(s), k - 1)
+Orders(s) == {RotN(s, k) : k \in 0..(Len(s) - 1)} \cup {Reverse(RotN(s, k)) : k \in 0..(Len(s) - 1)}
 \* single-field corruptions of an encoding the decoder has to flag (as [name, bytes] of an UPDATE body)
 Subst(b, i, x) == [b EXCEPT ![i] = x]
 Corruptions ==
